@@ -97,7 +97,14 @@ func Start(bin string, env ...string) (*Server, error) {
 }
 
 func (s *Server) start() error {
-	cmd := exec.Command(s.Bin)
+	// the tool runs under an address-space limit (4 GiB, VERIF_HOOK_MEM_KB overrides): a change
+	// that makes it allocate without bound must kill ONE server (reported as "died"), not the
+	// machine; 16 workers x 4 GiB stay far below the memory of the sandbox
+	memKB := os.Getenv("VERIF_HOOK_MEM_KB")
+	if memKB == "" {
+		memKB = "4194304"
+	}
+	cmd := exec.Command("/bin/sh", "-c", "ulimit -v "+memKB+" 2>/dev/null; exec \"$0\"", s.Bin)
 	cmd.Env = append(append(os.Environ(), "PIGEON_VERIF_SERVE=1"), s.Env...)
 	if st, err := os.Stat("/dev/shm"); err == nil && st.IsDir() {
 		cmd.Env = append(cmd.Env, "TMPDIR=/dev/shm")
